@@ -67,6 +67,18 @@ def r1_registry(a, tier):
     rep.add({'registers_under___name__': bool(stores)})
     if not stores:
         rep.fail(jb.qualname, 'registry-store', 'JSONBase.__init_subclass__ does not store cls under cls.__name__', jb.loc)
+    # classes are also created at run time (objectmodel.synth.synthesize builds Node subclasses named by the grammar author, and
+    # Node is a JSONBase): the registration must not replace an entry that is already there
+    from ..rules.common import dominating_conditions
+    pm = a.resolver.parents(jb)
+    for st in stores:
+        conds = [norm(c) for c in dominating_conditions(jb, pm, st)]
+        guarded = any('not in' in c and '__name__' in c for c in conds)
+        rep.add({'registry_store': norm(st), 'guarded_against_overwriting': guarded, 'conditions': conds})
+        if not guarded:
+            rep.fail(jb.qualname, 'registry-overwrite', f'`{norm(st)}` replaces whatever class is registered under that bare name: after any '
+                     f'parse with a typed rule such as `start::Token = ...` (asmodel=True synthesizes a Node subclass called Token) the JSON '
+                     f'form of every grammar reloads its Token nodes as that class', jb.loc)
     names: dict[str, list[str]] = {}
     for c in subs:
         names.setdefault(c.split('.')[-1], []).append(c)
